@@ -117,12 +117,17 @@ fn classify(e: Box<dyn std::any::Any + Send>, in_accessors: bool) -> Outcome {
 /// Calls the real `lex_program` on `src` and dumps the result through every accessor.
 /// Returns the outcome and, when it returned, the result itself.
 pub fn run_lex<A: AsRef<str>>(src: &A, tick: &mut dyn FnMut()) -> (Outcome, Option<LexResult>) {
+    run_lex_v(src, tick, 0)
+}
+
+/// As `run_lex`, with the accessors of the fresh result called in order `variant`.
+pub fn run_lex_v<A: AsRef<str>>(src: &A, tick: &mut dyn FnMut(), variant: u32) -> (Outcome, Option<LexResult>) {
     let r = panic::catch_unwind(AssertUnwindSafe(|| lex_program(src)));
     match r {
         Err(e) => (classify(e, false), None),
         Ok(Err(kind)) => (Outcome::ApiErr(kind as u16), None),
         Ok(Ok(res)) => {
-            let o = outcome_of_result(src, &res, tick);
+            let o = outcome_of_result_v(src, &res, tick, variant);
             (o, Some(res))
         }
     }
